@@ -891,34 +891,46 @@ def if_test_texts(func, nested=False):
 _alias_cache = {}
 
 
-def alias_map(func):
-    """locals of func bound exactly once (by a plain assignment) to a side-effect-free expression: name -> value AST"""
-    hit = _alias_cache.get(id(func))
+def alias_map(func, pure_methods=()):
+    """locals of func bound exactly once (by a plain assignment) to a side-effect-free expression: name -> value AST.
+    pure_methods: method names whose calls count as side-effect free for the caller's purpose (`children.index(':')`)"""
+    ck = (id(func), tuple(pure_methods))
+    hit = _alias_cache.get(ck)
     if hit is not None and hit[0] is func:
         return hit[1]
-    val = _alias_map(func)
-    _alias_cache[id(func)] = (func, val)
+    val = _alias_map(func, pure_methods)
+    _alias_cache[ck] = (func, val)
     return val
 
 
-def _alias_map(func):
+def _alias_map(func, pure_methods=()):
     cnt, val = {}, {}
     for n in own_nodes(func):
         if isinstance(n, ast.Name) and isinstance(n.ctx, (ast.Store, ast.Del)):
             cnt[n.id] = cnt.get(n.id, 0) + 1
+    from .canon import _is_pure, _IMPURE, _PURE_CALLS
+
+    def pure(e):
+        if not pure_methods:
+            return _is_pure(e)
+        for x in ast.walk(e):
+            if isinstance(x, _IMPURE):
+                return False
+            if isinstance(x, ast.Call) and not (isinstance(x.func, ast.Name) and x.func.id in _PURE_CALLS and not x.keywords) \
+                    and not (isinstance(x.func, ast.Attribute) and x.func.attr in pure_methods and not x.keywords):
+                return False
+        return True
     for a in stmts_in(func, ast.Assign):
         if len(a.targets) == 1 and isinstance(a.targets[0], ast.Name):
-            from .canon import _is_pure
-            impure = not _is_pure(a.value)
-            if not impure and cnt.get(a.targets[0].id) == 1:
+            if pure(a.value) and cnt.get(a.targets[0].id) == 1:
                 val[a.targets[0].id] = a.value
     return val
 
 
-def xnorm(expr, func, _depth=0):
+def xnorm(expr, func, _depth=0, pure_methods=()):
     """normalised text of expr with single-assignment pure locals of func expanded (`par.type` reads as `tree_name.parent.type` when
     `par = tree_name.parent` is the only binding of par): for comparisons that must not depend on whether a temporary was introduced"""
-    am = alias_map(func)
+    am = alias_map(func, pure_methods)
     if not am:
         return norm(expr)
 
@@ -1069,3 +1081,67 @@ def path_summaries(func, max_paths=200):
 
 def summary_text(summ):
     return sorted(('%s => %s' % (' & '.join(('' if v else 'not ') + '(' + t + ')' for t, v in sorted(f)), r)) for f, r in (summ or ()))
+
+
+# ---------------------------------------------------------------------------------------------------- decision tables over the CFG
+_ORD = {ast.Lt: '<', ast.Eq: '==', ast.In: 'in', ast.Is: 'is'}
+
+
+def atom_key(e, func=None, total_order=True, pure_methods=()):
+    """(canonical text, polarity) of an atomic test, so that every spelling of one fact has one key: `not`, the complementary
+    operators (!=, not in, is not), mirrored orderings (`a > b` is `b < a`) and - for totally ordered operands such as positions -
+    `a >= b` as `not a < b`; single-assignment pure temporaries of func are expanded"""
+    pol = True
+    while isinstance(e, ast.UnaryOp) and isinstance(e.op, ast.Not):
+        e, pol = e.operand, not pol
+    x = (lambda t: xnorm(t, func, pure_methods=pure_methods)) if func is not None else norm
+    if isinstance(e, ast.Compare) and len(e.ops) == 1:
+        op, l, r = type(e.ops[0]), x(e.left), x(e.comparators[0])
+        if op in (ast.NotEq, ast.NotIn, ast.IsNot):
+            op, pol = {ast.NotEq: ast.Eq, ast.NotIn: ast.In, ast.IsNot: ast.Is}[op], not pol
+        if op is ast.Gt:
+            op, l, r = ast.Lt, r, l
+        elif op is ast.GtE and total_order:
+            op, pol = ast.Lt, not pol
+        elif op is ast.LtE and total_order:
+            op, l, r, pol = ast.Lt, r, l, not pol
+        if op in (ast.Eq, ast.Is) and r < l:
+            l, r = r, l
+        if op in _ORD:
+            return '%s %s %s' % (l, _ORD[op], r), pol
+    return x(e), pol
+
+
+def decide(func, start, value_of, label_of, limit=4000, pure_methods=()):
+    """Runs the CFG of func from node `start` under an oracle for atomic tests: value_of(key, polarity-adjusted?, node) returns
+    True/False for a test whose canonical key it knows and None otherwise (both branches are explored).  label_of(node) names the
+    nodes at which a run ends.  Returns the set of labels reached ('<exit>' for leaving the function, '<loop>' for coming back to a
+    node already seen).  Exception edges are not followed."""
+    out, seen, todo = set(), set(), [start]
+    steps = 0
+    while todo:
+        n = todo.pop()
+        steps += 1
+        if steps > limit:
+            raise AnchorError('decision walk does not end in %s' % getattr(func, 'name', '?'))
+        lab = label_of(n)
+        if lab is not None and n is not start:
+            out.add(lab)
+            continue
+        if n.id in seen:
+            out.add('<loop>')
+            continue
+        seen.add(n.id)
+        if n.kind in ('exit', 'raise'):
+            out.add('<exit>')
+            continue
+        if n.kind == 'test' and n.ast is not None:
+            key, pol = atom_key(n.ast, func, pure_methods=pure_methods)
+            v = value_of(key, n)
+            if v is not None:
+                truth = v if pol else not v
+                nxt = [m for m, k in n.succ if k == ('T' if truth else 'F')]
+                todo.extend(nxt)
+                continue
+        todo.extend(m for m, k in n.succ if k not in ('exc', 'h'))
+    return out
